@@ -64,6 +64,14 @@ type Scenario struct {
 	Shard, Shards int
 }
 
+// Fine turns a coarse (message-level) scenario into its hybrid variant: lock / atomic operations issued
+// by the given packages (substrings of function names, e.g. "vivid/internal/actor.") are switch points too.
+func Fine(sc *Scenario, pkgs ...string) *Scenario {
+	sc.Cfg.FinePkgs = pkgs
+	sc.Name += "/fine"
+	return sc
+}
+
 // Split returns n copies of the scenario produced by mk, each exploring its share of the tree.
 func Split(n int, mk func() *Scenario) []*Scenario {
 	var out []*Scenario
